@@ -13,6 +13,7 @@
   object is refused for every requested ID, the all-zero one included.
 -/
 import Desync.Model.Chunk
+import Desync.Generated.Facts
 
 namespace Desync.C03
 open Desync
@@ -189,5 +190,24 @@ example : fromStorage (fun _ => none) [.compressor] [1, 2, 3] = none := rfl
     and delivers `[]` -/
 example : ∃ c, newChunkFromStorage (fun _ => [9]) (fun _ => some []) [9] [1] [.compressor] false = .ok c ∧
     delivers (fun _ => some []) c [] := ⟨_, rfl, rfl⟩
+
+/-- **regenerated obligation**: every store backend builds the chunk it returns with
+    `NewChunkFromStorage(id, bytes, its converters, its SkipVerify option)` for the requested `id`, returns
+    that call's result directly, and has no other way of returning a chunk (no memo, no cache of "already
+    verified" IDs); the casync-protocol client always verifies; the constructor itself compares the digest
+    of the decoded data with the requested ID unless told to skip -/
+theorem gen_backends_construct_verified :
+    Gen.ctorLocal = ["id", "converters", "SkipVerify", "returned"] ∧
+    Gen.ctorHTTP = ["id", "converters", "SkipVerify", "returned"] ∧
+    Gen.ctorS3 = ["id", "converters", "SkipVerify", "returned"] ∧
+    Gen.ctorSFTP = ["id", "converters", "SkipVerify", "returned"] ∧
+    Gen.ctorGCS = ["id", "converters", "SkipVerify", "returned"] ∧
+    Gen.ctorProtocol = ["id", "literal:{…}", "false", "returned"] ∧
+    Gen.ctorFromStorageBody = ["if:skip", "return:c,nil", "if:err!=nil", "return:nil,ChunkInvalid",
+      "if:sum!=id", "return:nil,ChunkInvalid", "return:c,nil"] ∧
+    Gen.site_ctor_Local_found = true ∧ Gen.site_ctor_HTTP_found = true ∧ Gen.site_ctor_S3_found = true ∧
+    Gen.site_ctor_SFTP_found = true ∧ Gen.site_ctor_GCS_found = true ∧ Gen.site_ctor_Protocol_found = true ∧
+    Gen.site_ctor_NewChunkFromStorage_found = true := by
+  decide
 
 end Desync.C03
